@@ -31,6 +31,11 @@ def scenarios(tier, seed, mode='forward'):
            'big_spend': 52000 if tier == 'thorough' else 50500, 'only_labels': ('D:utxo:commit', 'D:utxo:put', 'D:hist:commit') if tier == 'thorough' else ('D:utxo:commit',),
            'watchdog': 400}
     out.append(big)
+    # one scenario whose flushes (history-only and full) touch more than ten thousand distinct script hashes at once
+    wide = {'sid': f's{seed}-widepayout', 'wseed': rng.randrange(1 << 30), 'n0': 5, 'colls': 0, 'prefetch': rng.choice((1, 100)), 'reorg_limit': 3,
+            'flushkind': 'alt', 'flushvec': rng.choice(([False, True], [True])), 'mode': 'forward', 'small_files': False, 'more': 2,
+            'wide_payout': rng.choice((10500, 12000, 20500)), 'only_labels': ('D:utxo:commit', 'D:hist:commit'), 'watchdog': 400}
+    out.append(wide)
     return out
 
 
@@ -84,7 +89,7 @@ def crash_cases(rep, tier, seed, scen_list, want_phase):
             c = dict(sc)
             c.update({'crash_at': n, 'torn': torn, 'sample': len(cases) % 97 == 0})
             cases.append(c)
-    cases.sort(key=lambda c: -int(c.get('big_spend') or 0))     # longest first
+    cases.sort(key=lambda c: -int(c.get('big_spend') or c.get('wide_payout') or 0))     # longest first
     return cases
 
 
@@ -119,9 +124,8 @@ def run(tier, seed, replay=None):
         PID, tier, seed, scenarios(tier, seed), 'forward',
         rule='scenarios of 10-24 blocks with mixed history-only/full flush vectors, daemon growing during sync, half of them with a '
              'reorg and re-advance (metadata files hold stale data beyond the state height), half with metadata files shrunk so '
-             'writes cross file boundaries, plus one scenario whose flush spends > 50 000 on-disk outputs at once; '
-             'also: '
-             'writes cross file boundaries; a dry run counts the durable events (each LogicalFile write, each batch commit, each '
+             'writes cross file boundaries, plus one scenario whose flush spends > 50 000 on-disk outputs at once and one whose '
+             'flushes touch 10 500-20 500 distinct script hashes (a payout transaction); a dry run counts the durable events (each LogicalFile write, each batch commit, each '
              'direct put, each block-file write); quick cuts before every commit/put and a stratified sample of file writes '
              '(+ one torn prefix), thorough before every event with torn prefixes {1 byte, len-1, half}. After the cut: '
              'open_for_sync must succeed, report the height of the last UTXO batch whose commit preceded the cut, equal a clean '
